@@ -392,6 +392,9 @@ PROGRAMS = [   # (client 1, client 2) - small programs around start / stop / res
     ([["start"], ["enq", 1], ["clear"], ["enq", 2], ["joint"]], [["release", 1]]),
     ([["enq", 1], ["enq", 2], ["start"], ["stop"], ["enq", 3], ["start"], ["joint"]], [["release", 1], ["release", 2]]),
     ([["enq", 1], ["enq", 2], ["enq", 3], ["start"], ["release", 1], ["release", 2], ["joint"], ["stop"]], []),
+    # one worker busy with a gate-blocked task, the other one idle: its time-out may expire at any step of the next
+    # submission (and of the restart before it)
+    ([["start"], ["enq", 2], ["stop"], ["start"], ["enq", 3]], [["enq", 1], ["join"]], [1, 3], ((2, 1), (2, 0))),
 ]
 
 
@@ -500,12 +503,15 @@ def explore(part, nparts, maxruns, rnd):
                         plans_f.append({st: o})      # switches at counter accesses: explored by the directed passes below
                 else:
                     (plans_c if curidx >= 100 else plans_w).append({st: o})
+        # (a worker's idle time-out that expires while a client is inside a call - time passes at any moment - is never
+        # sampled away either: what these switches find is found at every seed)
+        tmo_c = [pl for pl in plans_c if min(pl.values()) < 0]
         rnd.shuffle(plans_c)
         rnd.shuffle(plans_w)
         # (switches at UNPROTECTED counter accesses come first and are never sampled away: correct code has none
         # outside start(), code that lost a lock has a few)
         unprot = [pl for pl in plans_f if any(c[0] in pl and c[3] in ("fld_read", "fld_write") for c in choices)]
-        for plan in unprot + plans_c[:maxruns] + plans_w[:maxruns]:
+        for plan in unprot + tmo_c + plans_c[:maxruns] + plans_w[:maxruns]:
             tr, _c = planned_trace(mx, mn, gated, progs, plan, policy)
             key = "|".join("%s:%s" % (e["thr"], e["k"]) for e in tr["ev"])
             if key not in seen:
